@@ -26,7 +26,7 @@ RUN_TIMEOUT_S = 900
 def gen(src, tier):
     strategy = src.choice("strategy", ["filter", "fixedpoint", "fixedinterval"])
     cfg = configs.gen_config(src, strategy=strategy, qmax=6, priors=("iwp", "iwp", "iwp", "ioup"),
-                             inits=("exact", "exact", "inexact", "diffuse"))
+                             inits=("exact", "exact", "inexact", "diffuse", "partial"))
     script = scen.gen_history(src, nsteps=(2, 5), p_reject=0.3, rel_lo=src.choice("rel_lo", [0.3, 0.05]))
     sc = {"cfg": cfg, "script": script, "eps": 1e-8, "final": scen.gen_final(src),
           "placements": scen.gen_placements(src, len(script) - 1, n=(0, 3)),
